@@ -56,7 +56,11 @@ IdEcho == (~R.out.raised /\ Len(Rep) = Len(A)) =>
                  Get(Rep[j], "s:id") = (IF A[j].echo THEN IdOf(AnsIdx[j]) ELSE VNone)
 \* ---------------- C04 (inline): a well-formed notification is never answered and runs exactly once
 HasNotif == \E j \in 1..Len(Es) : Valid(Es[j]) /\ Notif(Es[j])
-NotifSilent == (HasNotif /\ ~R.out.raised) => Len(Rep) <= Len(A)
+\* (a dispatcher that raises while everything it was given is a well-formed notification has not handled it silently:
+\* over HTTP the exception becomes a 500 answer)
+AllNotif == Len(Es) >= 1 /\ \A j \in 1..Len(Es) : Valid(Es[j]) /\ Notif(Es[j])
+NotifSilent == /\ (HasNotif /\ ~R.out.raised) => Len(Rep) <= Len(A)
+               /\ AllNotif => ~R.out.raised
 CallsExact == R.out.raised \/ \A j \in 1..Len(Es) : (R.entries[j].alias > 0 \/ Len(Es) = 1) => R.entries[j].ncalls = O.per[j].calls
 NotifOnce == R.out.raised \/ \A j \in 1..Len(Es) : (Valid(Es[j]) /\ Notif(Es[j]) /\ (R.entries[j].alias > 0 \/ Len(Es) = 1)) => R.entries[j].ncalls = O.per[j].calls
 \* ---------------- C05
